@@ -881,7 +881,9 @@ func (ag *aggrGroup) insert(ctx context.Context, alert *alert.Alert) bool {
 		trace.WithSpanKind(trace.SpanKindInternal),
 	)
 	defer span.End()
-	if err := ag.alerts.Set(alert); err != nil {
+	// Ingestion workers run concurrently, so updates of one alert can arrive
+	// out of order: an older version must not overwrite a newer one.
+	if err := ag.alerts.SetIfNotStale(alert); err != nil {
 		if errors.Is(err, store.ErrDestroyed) {
 			return false
 		}
